@@ -1,9 +1,17 @@
 import LospanVerif.Proofs.Counters
 /-
-  Composition for C07: every downlink counter in circulation — carried by an encoder thread that
-  has fetched it, or already emitted — was handed out by `NextFCntDn`, and no counter is in
-  circulation twice. Holds for every event list (all interleavings, faults, crashes), per device,
-  for as long as the device's counter epoch lasts (no join, no 16-bit wrap: `resetsDn`).
+  Composition for C03 and C07: every counter in circulation — carried by a thread that obtained
+  it from the store, or already turned into an observable effect (inbox row, emitted frame) — was
+  issued by the store operation (`AdvanceFCntUp` / `NextFCntDn`), and no counter is in circulation
+  twice. Holds for every event list (all interleavings, faults, crashes), per device, for as long
+  as the device's counter epoch lasts (no join, no 16-bit wrap).
+
+  The argument is the same for both directions, so it is written once over a `Book`:
+    held    the counter a thread carries (encoder after `NextFCntDn`; uplink handler of a strict
+            device between `AdvanceFCntUp` and the inbox insert)
+    out     the history of observable effects (emittedDn / recordedUp)
+    issued  the history of successful store operations (issuedDn / acceptedUp)
+    resets  devices whose epoch has ended (resetsDn / resetsUp)
 -/
 namespace LospanVerif
 namespace Proofs.Circ
@@ -43,74 +51,207 @@ theorem count_step (f : α → Option β) {l : List α} {i : Nat} {t : α} (t0 :
   cases hft : f t <;> cases hft0 : f t0 <;> simp [List.count_cons] <;> omega
 end lists
 
+structure Book where
+  held : Thread → Option (Bytes × Nat)
+  out : Sys → List (Bytes × Nat)
+  issued : Sys → List (Bytes × Nat)
+  resets : Sys → List Bytes
+
+def Book.heldAll (B : Book) (ts : List Thread) : List (Bytes × Nat) := ts.filterMap B.held
+
+/-- Counters in circulation. -/
+def Book.circ (B : Book) (s : Sys) (x : Bytes × Nat) : Nat := (B.out s).count x + (B.heldAll s.threads).count x
+
+/-- The local effect of one thread step on the bookkeeping of counters. -/
+inductive LS (B : Book) (s : Sys) (t : Thread) (s' : Sys) (ts : List Thread) : Prop where
+  | quiet (he : B.out s' = B.out s) (hi : B.issued s' = B.issued s) (hr : B.resets s' = B.resets s)
+      (ht : B.held t = none) (hts : B.heldAll ts = [])
+  | reset (e : Bytes) (he : B.out s' = B.out s) (hi : B.issued s' = forget (B.issued s) e) (hr : B.resets s' = e :: B.resets s)
+      (ht : B.held t = none) (hts : ∀ x ∈ B.heldAll ts, x.1 = e)
+  | issue (e : Bytes) (f : Nat) (he : B.out s' = B.out s) (hi : B.issued s' = B.issued s ++ [(e, f)]) (hr : B.resets s' = B.resets s)
+      (ht : B.held t = none) (hts : B.heldAll ts = [(e, f)] ∨ B.heldAll ts = []) (hfresh : (e, f) ∉ B.issued s)
+  | keep (x : Bytes × Nat) (he : B.out s' = B.out s) (hi : B.issued s' = B.issued s) (hr : B.resets s' = B.resets s)
+      (ht : B.held t = some x) (hts : B.heldAll ts = [x])
+  | emit (x : Bytes × Nat) (he : B.out s' = B.out s ++ [x]) (hi : B.issued s' = B.issued s) (hr : B.resets s' = B.resets s)
+      (ht : B.held t = some x) (hts : B.heldAll ts = [])
+  | drop (he : B.out s' = B.out s) (hi : B.issued s' = B.issued s) (hr : B.resets s' = B.resets s)
+      (hts : B.heldAll ts = [])
+
+/-- The invariant: for a device whose counter epoch is still running, whatever is in circulation
+    was issued, and at most once. -/
+def K (B : Book) (s : Sys) : Prop :=
+  ∀ x : Bytes × Nat, x.1 ∉ B.resets s → B.circ s x ≤ 1 ∧ (0 < B.circ s x → x ∈ B.issued s)
+
+theorem circ_after (B : Book) (sys s' r : Sys) (i : Nat) (t t0 : Thread) (more : List Thread) (x : Bytes × Nat)
+    (hi : sys.threads[i]? = some t) (hth : r.threads = replaceAt sys.threads i t0 ++ more) (ho : B.out r = B.out s') :
+    B.circ r x + (B.held t).toList.count x
+      = (B.out s').count x + (B.heldAll sys.threads).count x + (B.heldAll (t0 :: more)).count x := by
+  have h1 := count_step B.held t0 more x hi
+  have h2 : (B.heldAll (t0 :: more)).count x = (B.held t0).toList.count x + (B.heldAll more).count x := by
+    simp only [Book.heldAll, List.filterMap_cons]
+    cases B.held t0 <;> simp [List.count_cons]
+    omega
+  have h3 : B.circ r x = (B.out s').count x + ((sys.threads.set i t0 ++ more).filterMap B.held).count x := by
+    simp only [Book.circ, Book.heldAll, hth, ho, replaceAt]
+  rw [h3, h2]
+  simp only [Book.heldAll] at h1 ⊢
+  omega
+
+/-- The invariant is preserved by any thread step with a local effect of the six kinds. -/
+theorem k_after (B : Book) (sys s' r : Sys) (i : Nat) (t t0 : Thread) (more : List Thread)
+    (hi : sys.threads[i]? = some t) (hth : r.threads = replaceAt sys.threads i t0 ++ more)
+    (ho : B.out r = B.out s') (his : B.issued r = B.issued s') (hrs : B.resets r = B.resets s')
+    (hls : LS B sys t s' (t0 :: more)) (hk : K B sys) : K B r := by
+  intro x hx
+  have hcount := circ_after B sys s' r i t t0 more x hi hth ho
+  rw [hrs] at hx
+  rw [his]
+  cases hls with
+  | quiet he hi' hr ht hts =>
+    rw [hr] at hx
+    obtain ⟨h1, h2⟩ := hk x hx
+    simp only [Book.circ] at h1 h2
+    rw [he, ht, hts] at hcount
+    simp at hcount
+    rw [hi']
+    exact ⟨by omega, fun h => h2 (by omega)⟩
+  | drop he hi' hr hts =>
+    rw [hr] at hx
+    obtain ⟨h1, h2⟩ := hk x hx
+    simp only [Book.circ] at h1 h2
+    rw [he, hts] at hcount
+    simp at hcount
+    rw [hi']
+    exact ⟨by omega, fun h => h2 (by omega)⟩
+  | keep y he hi' hr ht hts =>
+    rw [hr] at hx
+    obtain ⟨h1, h2⟩ := hk x hx
+    simp only [Book.circ] at h1 h2
+    rw [he, ht, hts] at hcount
+    simp at hcount
+    rw [hi']
+    exact ⟨by omega, fun h => h2 (by omega)⟩
+  | emit y he hi' hr ht hts =>
+    rw [hr] at hx
+    obtain ⟨h1, h2⟩ := hk x hx
+    simp only [Book.circ] at h1 h2
+    rw [he, ht, hts] at hcount
+    simp [List.count_append] at hcount
+    rw [hi']
+    exact ⟨by omega, fun h => h2 (by omega)⟩
+  | reset e he hi' hr ht hts =>
+    rw [hr] at hx
+    have hne : x.1 ≠ e := fun h => hx (by rw [h]; exact List.mem_cons_self)
+    have hx' : x.1 ∉ B.resets sys := fun h => hx (List.mem_cons_of_mem _ h)
+    obtain ⟨h1, h2⟩ := hk x hx'
+    simp only [Book.circ] at h1 h2
+    have hz : (B.heldAll (t0 :: more)).count x = 0 := by
+      apply List.count_eq_zero.mpr
+      intro hm
+      exact hne (hts x hm)
+    rw [he, ht, hz] at hcount
+    simp at hcount
+    rw [hi']
+    exact ⟨by omega, fun h => mem_forget.mpr ⟨h2 (by omega), hne⟩⟩
+  | issue e f he hi' hr ht hts hfresh =>
+    rw [hr] at hx
+    obtain ⟨h1, h2⟩ := hk x hx
+    simp only [Book.circ] at h1 h2
+    rw [hi']
+    rcases hts with hts | hts
+    · rw [he, ht, hts] at hcount
+      by_cases hxe : x = (e, f)
+      · subst hxe
+        have h0 : (B.out sys).count (e, f) + (B.heldAll sys.threads).count (e, f) = 0 := by
+          rcases Nat.eq_zero_or_pos ((B.out sys).count (e, f) + (B.heldAll sys.threads).count (e, f)) with h | h
+          · exact h
+          · exact absurd (h2 h) hfresh
+        simp at hcount
+        exact ⟨by omega, fun _ => List.mem_append_right _ (List.mem_singleton.mpr rfl)⟩
+      · have : List.count x [(e, f)] = 0 := by
+          apply List.count_eq_zero.mpr; simp; exact hxe
+        simp [this] at hcount
+        exact ⟨by omega, fun h => List.mem_append_left _ (h2 (by omega))⟩
+    · rw [he, ht, hts] at hcount
+      simp at hcount
+      exact ⟨by omega, fun h => List.mem_append_left _ (h2 (by omega))⟩
+
+/-- Dropping threads (crash, end of a settled run) or changing anything but the bookkeeping keeps `K`. -/
+theorem k_mono (B : Book) {s s' : Sys} (hk : K B s) (he : B.out s' = B.out s) (hi : B.issued s' = B.issued s)
+    (hr : B.resets s' = B.resets s) (hh : ∀ x, (B.heldAll s'.threads).count x ≤ (B.heldAll s.threads).count x) : K B s' := by
+  intro x hx
+  rw [hr] at hx
+  obtain ⟨h1, h2⟩ := hk x hx
+  simp only [Book.circ] at h1 h2 ⊢
+  have := hh x
+  rw [he, hi]
+  exact ⟨by omega, fun h => h2 (by omega)⟩
+
+theorem ls_nil_done {B : Book} (hd : B.held .done = none) {s s' : Sys} {t : Thread} (h : LS B s t s' []) : LS B s t s' [.done] := by
+  have hd' : B.heldAll [Thread.done] = [] := by simp [Book.heldAll, hd]
+  cases h with
+  | quiet he hi hr ht hts => exact .quiet he hi hr ht hd'
+  | reset e he hi hr ht hts => exact .reset e he hi hr ht (by intro x hx; rw [hd'] at hx; cases hx)
+  | issue e f he hi hr ht hts hw => exact .issue e f he hi hr ht (Or.inr hd') hw
+  | keep x he hi hr ht hts => exact absurd hts (by simp [Book.heldAll])
+  | emit x he hi hr ht hts => exact .emit x he hi hr ht hd'
+  | drop he hi hr hts => exact .drop he hi hr hd'
+
+/-! ### the two books -/
+
 /-- The downlink counter an encoder thread carries once it has fetched it. -/
 def heldDn : Thread → Option (Bytes × Nat)
   | .encoder pc p c _ =>
     if (p.mhdr.mtype = mtUnconfirmedDataDown ∨ p.mhdr.mtype = mtConfirmedDataDown) ∧ 1 ≤ pc then some (c.device.eui, p.mac.fhdr.fcnt) else none
   | _ => none
 
-def heldAll (ts : List Thread) : List (Bytes × Nat) := ts.filterMap heldDn
+/-- The uplink counter the handler of a strict-counter device carries between the counter step
+    and the inbox insert. -/
+def heldUp : Thread → Option (Bytes × Nat)
+  | .uplink s => if s.pc = 2 ∧ s.cur.relaxed = false then some (s.cur.eui, s.p.mac.fhdr.fcnt) else none
+  | _ => none
 
-/-- Counters in circulation. -/
-def circCount (s : Sys) (x : Bytes × Nat) : Nat := s.emittedDn.count x + (heldAll s.threads).count x
+def dnBook : Book := ⟨heldDn, fun s => s.emittedDn, fun s => s.issuedDn, fun s => s.resetsDn⟩
+def upBook : Book := ⟨heldUp, fun s => s.recordedUp, fun s => s.acceptedUp, fun s => s.resetsUp⟩
 
-/-- The local effect of one thread step on the bookkeeping of downlink counters. -/
-inductive LS (s : Sys) (t : Thread) (s' : Sys) (ts : List Thread) : Prop where
-  | quiet (he : s'.emittedDn = s.emittedDn) (hi : s'.issuedDn = s.issuedDn) (hr : s'.resetsDn = s.resetsDn)
-      (ht : heldDn t = none) (hts : heldAll ts = [])
-  | reset (e : Bytes) (he : s'.emittedDn = s.emittedDn) (hi : s'.issuedDn = forget s.issuedDn e) (hr : s'.resetsDn = e :: s.resetsDn)
-      (ht : heldDn t = none) (hts : ∀ x ∈ heldAll ts, x.1 = e)
-  | issue (e : Bytes) (f : Nat) (he : s'.emittedDn = s.emittedDn) (hi : s'.issuedDn = s.issuedDn ++ [(e, f)]) (hr : s'.resetsDn = s.resetsDn)
-      (ht : heldDn t = none) (hts : heldAll ts = [(e, f)] ∨ heldAll ts = []) (hw : ∃ d ∈ dnView s.db, d.1 = e ∧ d.2 = f)
-  | keep (x : Bytes × Nat) (he : s'.emittedDn = s.emittedDn) (hi : s'.issuedDn = s.issuedDn) (hr : s'.resetsDn = s.resetsDn)
-      (ht : heldDn t = some x) (hts : heldAll ts = [x])
-  | emit (x : Bytes × Nat) (he : s'.emittedDn = s.emittedDn ++ [x]) (hi : s'.issuedDn = s.issuedDn) (hr : s'.resetsDn = s.resetsDn)
-      (ht : heldDn t = some x) (hts : heldAll ts = [])
-  | drop (he : s'.emittedDn = s.emittedDn) (hi : s'.issuedDn = s.issuedDn) (hr : s'.resetsDn = s.resetsDn)
-      (hts : heldAll ts = [])
+/-! ### downlink book: local effects of the three step functions -/
 
-/-- The invariant: for a device whose counter epoch is still running, whatever is in circulation
-    was handed out, and at most once. -/
-def K (s : Sys) : Prop :=
-  ∀ x : Bytes × Nat, x.1 ∉ s.resetsDn → circCount s x ≤ 1 ∧ (0 < circCount s x → x ∈ s.issuedDn)
-
-macro "quiet_ls" : tactic => `(tactic| exact LS.quiet rfl rfl rfl rfl (by simp [heldAll, heldDn]))
-
-theorem ls_stepUplink (E : Spec.Rfc4493.BlockFn) (sys : Sys) (s : UpSt) (fault : Bool) :
-    LS sys (.uplink s) (stepUplink E sys s fault).1 (stepUplink E sys s fault).2 := by
+theorem dn_stepUplink (E : Spec.Rfc4493.BlockFn) (sys : Sys) (s : UpSt) (fault : Bool) :
+    LS dnBook sys (.uplink s) (stepUplink E sys s fault).1 (stepUplink E sys s fault).2 := by
   unfold stepUplink
   simp only []
   split
   all_goals (repeat' split)
-  all_goals quiet_ls
+  all_goals exact LS.quiet rfl rfl rfl rfl (by simp [Book.heldAll, dnBook, heldDn])
 
-theorem ls_stepJoin (E : Spec.Rfc4493.BlockFn) (cfg : Config) (sys : Sys) (s : JoinSt) (fault : Bool) :
-    LS sys (.join s) (stepJoin E cfg sys s fault).1 (stepJoin E cfg sys s fault).2 := by
+theorem dn_stepJoin (E : Spec.Rfc4493.BlockFn) (cfg : Config) (sys : Sys) (s : JoinSt) (fault : Bool) :
+    LS dnBook sys (.join s) (stepJoin E cfg sys s fault).1 (stepJoin E cfg sys s fault).2 := by
   unfold stepJoin
   simp only []
   split
   all_goals (repeat' split)
   all_goals first
-    | quiet_ls
-    | exact LS.reset _ rfl rfl rfl rfl (by simp [heldAll, heldDn])
+    | exact LS.quiet rfl rfl rfl rfl (by simp [Book.heldAll, dnBook, heldDn])
+    | exact LS.reset _ rfl rfl rfl rfl (by simp [Book.heldAll, dnBook, heldDn])
 
 theorem held_enc (pc : Nat) (p : PHY) (c : Ctx) (b : Bytes) (hd : p.mhdr.mtype = mtUnconfirmedDataDown ∨ p.mhdr.mtype = mtConfirmedDataDown)
-    (hpc : 1 ≤ pc) : heldDn (.encoder pc p c b) = some (c.device.eui, p.mac.fhdr.fcnt) := by
-  simp [heldDn, hd, hpc]
+    (hpc : 1 ≤ pc) : dnBook.held (.encoder pc p c b) = some (c.device.eui, p.mac.fhdr.fcnt) := by
+  simp [dnBook, heldDn, hd, hpc]
 
-theorem held_enc0 (p : PHY) (c : Ctx) (b : Bytes) : heldDn (.encoder 0 p c b) = none := by
-  simp [heldDn]
+theorem held_enc0 (p : PHY) (c : Ctx) (b : Bytes) : dnBook.held (.encoder 0 p c b) = none := by
+  simp [dnBook, heldDn]
 
 theorem held_enc_other (pc : Nat) (p : PHY) (c : Ctx) (b : Bytes)
-    (hd : ¬ (p.mhdr.mtype = mtUnconfirmedDataDown ∨ p.mhdr.mtype = mtConfirmedDataDown)) : heldDn (.encoder pc p c b) = none := by
-  simp [heldDn, hd]
+    (hd : ¬ (p.mhdr.mtype = mtUnconfirmedDataDown ∨ p.mhdr.mtype = mtConfirmedDataDown)) : dnBook.held (.encoder pc p c b) = none := by
+  simp [dnBook, heldDn, hd]
 
 theorem ja_not_data {p : PHY} (h : p.mhdr.mtype = mtJoinAccept) :
     ¬ (p.mhdr.mtype = mtUnconfirmedDataDown ∨ p.mhdr.mtype = mtConfirmedDataDown) := by
   rw [h]; decide
 
-theorem ls_stepEncoder (E D : Spec.Rfc4493.BlockFn) (sys : Sys) (pc : Nat) (p : PHY) (c : Ctx) (b : Bytes) (fault : Bool) :
-    LS sys (.encoder pc p c b) (stepEncoder E D sys pc p c b fault).1 (stepEncoder E D sys pc p c b fault).2 := by
+theorem dn_stepEncoder (E D : Spec.Rfc4493.BlockFn) (sys : Sys) (pc : Nat) (p : PHY) (c : Ctx) (b : Bytes) (fault : Bool)
+    (hc : CInv sys) :
+    LS dnBook sys (.encoder pc p c b) (stepEncoder E D sys pc p c b fault).1 (stepEncoder E D sys pc p c b fault).2 := by
   unfold stepEncoder
   simp only []
   split
@@ -125,7 +266,7 @@ theorem ls_stepEncoder (E D : Spec.Rfc4493.BlockFn) (sys : Sys) (pc : Nat) (p : 
         · split
           · refine LS.reset _ rfl rfl rfl (held_enc_other _ p c b hnd) ?_
             intro x hx
-            simp [heldAll, heldDn, hja, mtJoinAccept, mtUnconfirmedDataDown, mtConfirmedDataDown] at hx
+            simp [Book.heldAll, dnBook, heldDn, hja, mtJoinAccept, mtUnconfirmedDataDown, mtConfirmedDataDown] at hx
           · exact LS.reset _ rfl rfl rfl (held_enc_other _ p c b hnd) (by intro x hx; cases hx)
     · exact LS.quiet rfl rfl rfl (held_enc_other _ p c b hnd) rfl
   · split
@@ -138,33 +279,37 @@ theorem ls_stepEncoder (E D : Spec.Rfc4493.BlockFn) (sys : Sys) (pc : Nat) (p : 
         · split
           · exact LS.quiet rfl rfl rfl (held_enc0 p c b) rfl
           · rename_i db f hn
-            obtain ⟨_, _, hw⟩ := next_views hn
+            obtain ⟨_, _, d, hdm, hde, hdf⟩ := next_views hn
+            have hfresh : (c.device.eui, f) ∉ sys.issuedDn := by
+              intro hm
+              have := hc.dnB c.device.eui f hm d hdm hde
+              omega
             split
             · -- encoded
               by_cases hwrap : f + 1 < 65536
-              · refine LS.issue c.device.eui f rfl ?_ ?_ (held_enc0 p c b) (Or.inl ?_) hw
-                · simp [noteCounter, hwrap]
-                · simp [hwrap]
-                · simp [heldAll, heldDn, hd]
+              · refine LS.issue c.device.eui f rfl ?_ ?_ (held_enc0 p c b) (Or.inl ?_) hfresh
+                · simp [dnBook, noteCounter, hwrap]
+                · simp [dnBook, hwrap]
+                · simp [Book.heldAll, dnBook, heldDn, hd]
               · refine LS.reset c.device.eui rfl ?_ ?_ (held_enc0 p c b) ?_
-                · simp [noteCounter, hwrap]
-                · simp [hwrap]
+                · simp [dnBook, noteCounter, hwrap]
+                · simp [dnBook, hwrap]
                 · intro x hx
-                  simp [heldAll, heldDn, hd] at hx
+                  simp [Book.heldAll, dnBook, heldDn, hd] at hx
                   rw [hx]
             · by_cases hwrap : f + 1 < 65536
-              · refine LS.issue c.device.eui f rfl ?_ ?_ (held_enc0 p c b) (Or.inr rfl) hw
-                · simp [noteCounter, hwrap]
-                · simp [hwrap]
+              · refine LS.issue c.device.eui f rfl ?_ ?_ (held_enc0 p c b) (Or.inr rfl) hfresh
+                · simp [dnBook, noteCounter, hwrap]
+                · simp [dnBook, hwrap]
               · refine LS.reset c.device.eui rfl ?_ ?_ (held_enc0 p c b) (by intro x hx; cases hx)
-                · simp [noteCounter, hwrap]
-                · simp [hwrap]
+                · simp [dnBook, noteCounter, hwrap]
+                · simp [dnBook, hwrap]
       · -- pc = 1
         refine LS.keep (c.device.eui, p.mac.fhdr.fcnt) ?_ ?_ ?_ (held_enc 1 p c b hd (Nat.le_refl _)) ?_
         · split <;> rfl
         · split <;> rfl
         · split <;> rfl
-        · simp [heldAll, heldDn, hd]
+        · simp [Book.heldAll, dnBook, heldDn, hd]
       · -- pc ≥ 2
         rename_i h0 h1
         have hpc : 1 ≤ pc := by
@@ -175,117 +320,93 @@ theorem ls_stepEncoder (E D : Spec.Rfc4493.BlockFn) (sys : Sys) (pc : Nat) (p : 
     · rename_i hnja hnd
       exact LS.quiet rfl rfl rfl (held_enc_other _ p c b hnd) rfl
 
-/-- Thread `i` (= `t`) of `sys` is replaced by `t0`, the threads `more` are appended, and the rest of
-    the state is `s'`. -/
-def after (sys s' : Sys) (i : Nat) (t0 : Thread) (more : List Thread) : Sys :=
-  { s' with threads := replaceAt sys.threads i t0 ++ more }
-
-theorem circ_after (sys s' : Sys) (i : Nat) (t t0 : Thread) (more : List Thread) (x : Bytes × Nat)
-    (hi : sys.threads[i]? = some t) :
-    circCount (after sys s' i t0 more) x + (heldDn t).toList.count x
-      = s'.emittedDn.count x + (heldAll sys.threads).count x + (heldAll (t0 :: more)).count x := by
-  have h1 := count_step heldDn t0 more x hi
-  have h2 : (heldAll (t0 :: more)).count x = (heldDn t0).toList.count x + (heldAll more).count x := by
-    simp only [heldAll, List.filterMap_cons]
-    cases heldDn t0 <;> simp [List.count_cons]
-    omega
-  have h3 : circCount (after sys s' i t0 more) x = s'.emittedDn.count x + ((sys.threads.set i t0 ++ more).filterMap heldDn).count x := rfl
-  rw [h3, h2]
-  simp only [heldAll] at h1 ⊢
+theorem up_fresh {sys : Sys} (hc : CInv sys) {e : Bytes} {f : Nat} {kw : Bool} {db : DB}
+    (h : sys.db.advanceFCntUp e f kw = some db) : (e, f) ∉ sys.acceptedUp := by
+  intro hm
+  obtain ⟨_, _, t, ht, hte, htf⟩ := advance_views h
+  have := hc.upB e f hm t ht hte
   omega
 
-theorem mem_note {l : List (Bytes × Nat)} {e : Bytes} {f : Nat} {x : Bytes × Nat} (hx : x ∈ l) (hne : x.1 ≠ e) :
-    x ∈ noteCounter l e f := by
-  unfold noteCounter
-  split
-  · exact List.mem_append_left _ hx
-  · exact mem_forget.mpr ⟨hx, hne⟩
+/-- The thread after a successful counter step holds the counter exactly when the device copy is strict. -/
+theorem up_issue_shape (s : UpSt) (d : Device) (hr : d.relaxed = s.cur.relaxed) (he : d.eui = s.cur.eui) :
+    upBook.heldAll [Thread.uplink { s with pc := 2, cur := d }] = [(s.cur.eui, s.p.mac.fhdr.fcnt)] ∨
+    upBook.heldAll [Thread.uplink { s with pc := 2, cur := d }] = [] := by
+  cases hrel : s.cur.relaxed
+  · left; simp [Book.heldAll, upBook, heldUp, hr, he, hrel]
+  · right; simp [Book.heldAll, upBook, heldUp, hr, hrel]
 
-/-- The invariant is preserved by any thread step with a local effect of the six kinds. -/
-theorem k_after (sys s' : Sys) (i : Nat) (t t0 : Thread) (more : List Thread)
-    (hi : sys.threads[i]? = some t) (hls : LS sys t s' (t0 :: more)) (hc : CInv sys) (hk : K sys) :
-    K (after sys s' i t0 more) := by
-  intro x hx
-  have hcount := circ_after sys s' i t t0 more x hi
-  have hres : (after sys s' i t0 more).resetsDn = s'.resetsDn := rfl
-  have hiss : (after sys s' i t0 more).issuedDn = s'.issuedDn := rfl
-  rw [hres] at hx
-  rw [hiss]
-  cases hls with
-  | quiet he hi' hr ht hts =>
-    rw [hr] at hx
-    obtain ⟨h1, h2⟩ := hk x hx
-    simp only [circCount] at h1 h2
-    rw [he, ht, hts] at hcount
-    simp at hcount
-    rw [hi']
-    exact ⟨by omega, fun h => h2 (by omega)⟩
-  | drop he hi' hr hts =>
-    rw [hr] at hx
-    obtain ⟨h1, h2⟩ := hk x hx
-    simp only [circCount] at h1 h2
-    rw [he, hts] at hcount
-    simp at hcount
-    rw [hi']
-    exact ⟨by omega, fun h => h2 (by omega)⟩
-  | keep y he hi' hr ht hts =>
-    rw [hr] at hx
-    obtain ⟨h1, h2⟩ := hk x hx
-    simp only [circCount] at h1 h2
-    rw [he, ht, hts] at hcount
-    simp at hcount
-    rw [hi']
-    exact ⟨by omega, fun h => h2 (by omega)⟩
-  | emit y he hi' hr ht hts =>
-    rw [hr] at hx
-    obtain ⟨h1, h2⟩ := hk x hx
-    simp only [circCount] at h1 h2
-    rw [he, ht, hts] at hcount
-    simp [List.count_append] at hcount
-    rw [hi']
-    exact ⟨by omega, fun h => h2 (by omega)⟩
-  | reset e he hi' hr ht hts =>
-    rw [hr] at hx
-    have hne : x.1 ≠ e := fun h => hx (by rw [h]; exact List.mem_cons_self)
-    have hx' : x.1 ∉ sys.resetsDn := fun h => hx (List.mem_cons_of_mem _ h)
-    obtain ⟨h1, h2⟩ := hk x hx'
-    simp only [circCount] at h1 h2
-    have hz : (heldAll (t0 :: more)).count x = 0 := by
-      apply List.count_eq_zero.mpr
-      intro hm
-      exact hne (hts x hm)
-    rw [he, ht, hz] at hcount
-    simp at hcount
-    rw [hi']
-    exact ⟨by omega, fun h => mem_forget.mpr ⟨h2 (by omega), hne⟩⟩
-  | issue e f he hi' hr ht hts hw =>
-    rw [hr] at hx
-    obtain ⟨h1, h2⟩ := hk x hx
-    simp only [circCount] at h1 h2
-    rw [hi']
-    -- the counter just handed out was not in circulation
-    have hfresh : (e, f) ∉ sys.issuedDn := by
-      intro hm
-      obtain ⟨d, hd, hde, hdf⟩ := hw
-      have := hc.dnB e f hm d hd hde
-      omega
-    rcases hts with hts | hts
-    · rw [he, ht, hts] at hcount
-      by_cases hxe : x = (e, f)
-      · subst hxe
-        have h0 : sys.emittedDn.count (e, f) + (heldAll sys.threads).count (e, f) = 0 := by
-          rcases Nat.eq_zero_or_pos (sys.emittedDn.count (e, f) + (heldAll sys.threads).count (e, f)) with h | h
-          · exact h
-          · exact absurd (h2 h) hfresh
-        simp at hcount
-        exact ⟨by omega, fun _ => List.mem_append_right _ (List.mem_singleton.mpr rfl)⟩
-      · have : List.count x [(e, f)] = 0 := by
-          apply List.count_eq_zero.mpr; simp; exact hxe
-        simp [this] at hcount
-        exact ⟨by omega, fun h => List.mem_append_left _ (h2 (by omega))⟩
-    · rw [he, ht, hts] at hcount
-      simp at hcount
-      exact ⟨by omega, fun h => List.mem_append_left _ (h2 (by omega))⟩
+theorem up_stepUplink (E : Spec.Rfc4493.BlockFn) (sys : Sys) (s : UpSt) (fault : Bool) (hc : CInv sys) :
+    LS upBook sys (.uplink s) (stepUplink E sys s fault).1 (stepUplink E sys s fault).2 := by
+  unfold stepUplink
+  simp only []
+  split
+  all_goals (repeat' split)
+  all_goals first
+    | ((refine LS.quiet rfl rfl rfl ?_ ?_ <;> simp_all [Book.heldAll, upBook, heldUp]); done)
+    | ((refine LS.drop rfl rfl rfl ?_ <;> simp_all [Book.heldAll, upBook, heldUp]); done)
+    | skip
+  · -- several devices match: key warning set on the copy
+    rename_i hadv hwrap
+    have hpc : s.pc = 1 := by assumption
+    refine LS.issue s.cur.eui s.p.mac.fhdr.fcnt rfl ?_ ?_ ?_ (up_issue_shape s _ rfl rfl) (up_fresh hc hadv)
+    · simp [upBook, noteCounter, hwrap]
+    · simp [upBook, hwrap]
+    · simp [upBook, heldUp, hpc]
+  · rename_i hadv hwrap
+    have hpc : s.pc = 1 := by assumption
+    refine LS.reset s.cur.eui rfl ?_ ?_ ?_ ?_
+    · simp [upBook, noteCounter, hwrap]
+    · simp [upBook, hwrap]
+    · simp [upBook, heldUp, hpc]
+    · intro x hx
+      rcases up_issue_shape s { s.cur with keyWarning := true, fcntUp := (s.p.mac.fhdr.fcnt + 1) % 65536 } rfl rfl with h | h
+      · rw [h] at hx; simp at hx; rw [hx]
+      · rw [h] at hx; cases hx
+  · rename_i hadv hwrap
+    have hpc : s.pc = 1 := by assumption
+    refine LS.issue s.cur.eui s.p.mac.fhdr.fcnt rfl ?_ ?_ ?_ (up_issue_shape s _ rfl rfl) (up_fresh hc hadv)
+    · simp [upBook, noteCounter, hwrap]
+    · simp [upBook, hwrap]
+    · simp [upBook, heldUp, hpc]
+  · rename_i hadv hwrap
+    have hpc : s.pc = 1 := by assumption
+    refine LS.reset s.cur.eui rfl ?_ ?_ ?_ ?_
+    · simp [upBook, noteCounter, hwrap]
+    · simp [upBook, hwrap]
+    · simp [upBook, heldUp, hpc]
+    · intro x hx
+      rcases up_issue_shape s { s.cur with fcntUp := (s.p.mac.fhdr.fcnt + 1) % 65536 } rfl rfl with h | h
+      · rw [h] at hx; simp at hx; rw [hx]
+      · rw [h] at hx; cases hx
+  · -- the inbox insert of a strict device's frame
+    rename_i hrel
+    have hpc : s.pc = 2 := by assumption
+    have hstrict : s.cur.relaxed = false := by simpa using hrel
+    refine LS.emit (s.cur.eui, s.p.mac.fhdr.fcnt) ?_ rfl rfl ?_ ?_
+    · simp [upBook, hstrict]
+    · simp [upBook, heldUp, hpc, hstrict]
+    · simp [Book.heldAll, upBook, heldUp]
+
+theorem up_stepJoin (E : Spec.Rfc4493.BlockFn) (cfg : Config) (sys : Sys) (s : JoinSt) (fault : Bool) :
+    LS upBook sys (.join s) (stepJoin E cfg sys s fault).1 (stepJoin E cfg sys s fault).2 := by
+  unfold stepJoin
+  simp only []
+  split
+  all_goals (repeat' split)
+  all_goals first
+    | exact LS.quiet rfl rfl rfl rfl (by simp [Book.heldAll, upBook, heldUp])
+    | exact LS.reset _ rfl rfl rfl rfl (by simp [Book.heldAll, upBook, heldUp])
+
+theorem up_stepEncoder (E D : Spec.Rfc4493.BlockFn) (sys : Sys) (pc : Nat) (p : PHY) (c : Ctx) (b : Bytes) (fault : Bool) :
+    LS upBook sys (.encoder pc p c b) (stepEncoder E D sys pc p c b fault).1 (stepEncoder E D sys pc p c b fault).2 := by
+  unfold stepEncoder
+  simp only []
+  repeat' split
+  all_goals first
+    | exact LS.quiet rfl rfl rfl rfl (by simp [Book.heldAll, upBook, heldUp])
+    | exact LS.reset _ rfl rfl rfl rfl (by simp [Book.heldAll, upBook, heldUp])
+
+/-! ### every step preserves both invariants -/
 
 theorem threads_stepUplink (E : Spec.Rfc4493.BlockFn) (sys : Sys) (s : UpSt) (fault : Bool) :
     (stepUplink E sys s fault).1.threads = sys.threads := by
@@ -310,77 +431,117 @@ theorem threads_stepEncoder (E D : Spec.Rfc4493.BlockFn) (sys : Sys) (pc : Nat) 
   repeat' split
   all_goals rfl
 
-theorem ls_nil_done {s s' : Sys} {t : Thread} (h : LS s t s' []) : LS s t s' [.done] := by
-  have hd : heldAll [Thread.done] = [] := rfl
-  cases h with
-  | quiet he hi hr ht hts => exact .quiet he hi hr ht hd
-  | reset e he hi hr ht hts => exact .reset e he hi hr ht (by intro x hx; rw [hd] at hx; cases hx)
-  | issue e f he hi hr ht hts hw => exact .issue e f he hi hr ht (Or.inr hd) hw
-  | keep x he hi hr ht hts => exact absurd hts (by simp [heldAll])
-  | emit x he hi hr ht hts => exact .emit x he hi hr ht hd
-  | drop he hi hr hts => exact .drop he hi hr hd
+/-- A book whose history variables do not depend on the thread pool and whose `held` is `none` on
+    the thread kinds that never carry a counter. -/
+structure Book.Ok (B : Book) : Prop where
+  out_thr : ∀ (s : Sys) (ts : List Thread), B.out { s with threads := ts } = B.out s
+  iss_thr : ∀ (s : Sys) (ts : List Thread), B.issued { s with threads := ts } = B.issued s
+  res_thr : ∀ (s : Sys) (ts : List Thread), B.resets { s with threads := ts } = B.resets s
+  out_fob : ∀ (s : Sys) (f : List (Bytes × FobEntry)) (sc : List Bytes), B.out { s with fob := f, scheduled := sc } = B.out s
+  iss_fob : ∀ (s : Sys) (f : List (Bytes × FobEntry)) (sc : List Bytes), B.issued { s with fob := f, scheduled := sc } = B.issued s
+  res_fob : ∀ (s : Sys) (f : List (Bytes × FobEntry)) (sc : List Bytes), B.resets { s with fob := f, scheduled := sc } = B.resets s
+  out_db : ∀ (s : Sys) (db : DB), B.out { s with db := db } = B.out s
+  iss_db : ∀ (s : Sys) (db : DB), B.issued { s with db := db } = B.issued s
+  res_db : ∀ (s : Sys) (db : DB), B.resets { s with db := db } = B.resets s
+  done : B.held .done = none
+  notify : ∀ p c, B.held (.notify p c) = none
+  sendAt : ∀ c, B.held (.sendAt c) = none
+  sendDone : ∀ e, B.held (.sendDone e) = none
+  enc0 : ∀ p c b, B.held (.encoder 0 p c b) = none
+  up0 : ∀ s, s.pc = 0 → B.held (.uplink s) = none
+  join0 : ∀ s, B.held (.join s) = none
 
-/-- One step of any thread preserves the circulation invariant. -/
-theorem k_step (E D : Spec.Rfc4493.BlockFn) (cfg : Config) (sys : Sys) (i : Nat) (fault : Bool) (hc : CInv sys) (hk : K sys) :
-    K (step E D cfg sys i fault) := by
+theorem dnBook_ok : dnBook.Ok :=
+  { out_thr := fun _ _ => rfl, iss_thr := fun _ _ => rfl, res_thr := fun _ _ => rfl,
+    out_fob := fun _ _ _ => rfl, iss_fob := fun _ _ _ => rfl, res_fob := fun _ _ _ => rfl,
+    out_db := fun _ _ => rfl, iss_db := fun _ _ => rfl, res_db := fun _ _ => rfl,
+    done := rfl, notify := fun _ _ => rfl, sendAt := fun _ => rfl, sendDone := fun _ => rfl,
+    enc0 := fun p c b => held_enc0 p c b, up0 := fun _ _ => rfl, join0 := fun _ => rfl }
+
+theorem upBook_ok : upBook.Ok :=
+  { out_thr := fun _ _ => rfl, iss_thr := fun _ _ => rfl, res_thr := fun _ _ => rfl,
+    out_fob := fun _ _ _ => rfl, iss_fob := fun _ _ _ => rfl, res_fob := fun _ _ _ => rfl,
+    out_db := fun _ _ => rfl, iss_db := fun _ _ => rfl, res_db := fun _ _ => rfl,
+    done := rfl, notify := fun _ _ => rfl, sendAt := fun _ => rfl, sendDone := fun _ => rfl,
+    enc0 := fun _ _ _ => rfl, up0 := fun s h => by simp [upBook, heldUp, h], join0 := fun _ => rfl }
+
+/-- One step of any thread preserves the circulation invariant of a book, given the local effects
+    of the three step functions for that book. -/
+theorem k_step (B : Book) (ok : B.Ok) (E D : Spec.Rfc4493.BlockFn) (cfg : Config) (sys : Sys) (i : Nat) (fault : Bool)
+    (hU : ∀ s, LS B sys (.uplink s) (stepUplink E sys s fault).1 (stepUplink E sys s fault).2)
+    (hJ : ∀ s, LS B sys (.join s) (stepJoin E cfg sys s fault).1 (stepJoin E cfg sys s fault).2)
+    (hE : ∀ pc p c b, LS B sys (.encoder pc p c b) (stepEncoder E D sys pc p c b fault).1 (stepEncoder E D sys pc p c b fault).2)
+    (hk : K B sys) : K B (step E D cfg sys i fault) := by
   unfold step
   split
   · exact hk
   · rename_i t hi
-    have key : ∀ (r : Sys × List Thread), LS sys t r.1 r.2 → r.1.threads = sys.threads →
-        K (match r.2 with
+    have key : ∀ (r : Sys × List Thread), LS B sys t r.1 r.2 → r.1.threads = sys.threads →
+        K B (match r.2 with
           | [] => { r.1 with threads := replaceAt r.1.threads i .done }
           | t0 :: more => { r.1 with threads := replaceAt r.1.threads i t0 ++ more }) := by
       intro r hls hth
       split
       · rename_i hnil
         rw [hnil] at hls
-        have := k_after sys r.1 i t .done [] hi (ls_nil_done hls) hc hk
-        simpa [after, hth] using this
+        exact k_after B sys r.1 _ i t .done [] hi (by simp [hth]) (ok.out_thr _ _) (ok.iss_thr _ _) (ok.res_thr _ _)
+          (ls_nil_done ok.done hls) hk
       · rename_i t0 more hcons
         rw [hcons] at hls
-        have := k_after sys r.1 i t t0 more hi hls hc hk
-        simpa [after, hth] using this
+        exact k_after B sys r.1 _ i t t0 more hi (by simp [hth]) (ok.out_thr _ _) (ok.iss_thr _ _) (ok.res_thr _ _) hls hk
+    have hq : ∀ (s' : Sys) (ts : List Thread), B.out s' = B.out sys → B.issued s' = B.issued sys → B.resets s' = B.resets sys →
+        B.held t = none → B.heldAll ts = [] → LS B sys t s' ts := fun _ _ a b c d e => LS.quiet a b c d e
     cases t with
-    | uplink s => exact key _ (ls_stepUplink E sys s fault) (threads_stepUplink E sys s fault)
-    | join s => exact key _ (ls_stepJoin E cfg sys s fault) (threads_stepJoin E cfg sys s fault)
+    | uplink s => exact key _ (hU s) (threads_stepUplink E sys s fault)
+    | join s => exact key _ (hJ s) (threads_stepJoin E cfg sys s fault)
     | notify p c =>
       refine key (if sys.scheduled.contains c.device.eui then (sys, [.done])
         else ({ sys with scheduled := c.device.eui :: sys.scheduled }, [.sendAt c])) ?_ ?_
-      · split <;> exact LS.quiet rfl rfl rfl rfl rfl
+      · split
+        · exact hq _ _ rfl rfl rfl (ok.notify p c) (by simp [Book.heldAll, ok.done])
+        · exact hq _ _ (ok.out_fob sys sys.fob _) (ok.iss_fob sys sys.fob _) (ok.res_fob sys sys.fob _) (ok.notify p c)
+            (by simp [Book.heldAll, ok.sendAt])
       · split <;> rfl
     | sendAt c =>
       refine key (match (fobTake sys.fob c.device c.gw.dataRate).2 with
         | some p => ({ sys with fob := (fobTake sys.fob c.device c.gw.dataRate).1 }, [.sendDone c.device.eui, .encoder 0 p c []])
         | none => ({ sys with fob := (fobTake sys.fob c.device c.gw.dataRate).1 }, [.sendDone c.device.eui])) ?_ ?_
       · split
-        · exact LS.quiet rfl rfl rfl rfl (by simp [heldAll, heldDn])
-        · exact LS.quiet rfl rfl rfl rfl rfl
+        · exact hq _ _ (ok.out_fob sys _ sys.scheduled) (ok.iss_fob sys _ sys.scheduled) (ok.res_fob sys _ sys.scheduled) (ok.sendAt c)
+            (by simp [Book.heldAll, ok.sendDone, ok.enc0])
+        · exact hq _ _ (ok.out_fob sys _ sys.scheduled) (ok.iss_fob sys _ sys.scheduled) (ok.res_fob sys _ sys.scheduled) (ok.sendAt c)
+            (by simp [Book.heldAll, ok.sendDone])
       · split <;> rfl
-    | sendDone e => exact key ({ sys with scheduled := sys.scheduled.filter (· != e) }, [.done]) (LS.quiet rfl rfl rfl rfl rfl) rfl
-    | encoder pc p c b => exact key _ (ls_stepEncoder E D sys pc p c b fault) (threads_stepEncoder E D sys pc p c b fault)
-    | done => exact key (sys, [.done]) (LS.quiet rfl rfl rfl rfl rfl) rfl
+    | sendDone e =>
+      exact key ({ sys with scheduled := sys.scheduled.filter (· != e) }, [.done])
+        (hq _ _ (ok.out_fob sys sys.fob _) (ok.iss_fob sys sys.fob _) (ok.res_fob sys sys.fob _) (ok.sendDone e) (by simp [Book.heldAll, ok.done])) rfl
+    | encoder pc p c b => exact key _ (hE pc p c b) (threads_stepEncoder E D sys pc p c b fault)
+    | done => exact key (sys, [.done]) (hq _ _ rfl rfl rfl ok.done (by simp [Book.heldAll, ok.done])) rfl
 
-/-- Dropping threads (crash, end of a settled run) or changing anything but the bookkeeping keeps `K`. -/
-theorem k_mono {s s' : Sys} (hk : K s) (he : s'.emittedDn = s.emittedDn) (hi : s'.issuedDn = s.issuedDn)
-    (hr : s'.resetsDn = s.resetsDn) (hh : ∀ x, (heldAll s'.threads).count x ≤ (heldAll s.threads).count x) : K s' := by
-  intro x hx
-  rw [hr] at hx
-  obtain ⟨h1, h2⟩ := hk x hx
-  simp only [circCount] at h1 h2 ⊢
-  have := hh x
-  rw [he, hi]
-  exact ⟨by omega, fun h => h2 (by omega)⟩
-
+/-- The counter invariants together with both circulation invariants. -/
 structure KInv (s : Sys) : Prop where
   c : CInv s
-  k : K s
+  dn : K dnBook s
+  up : K upBook s
 
 theorem kinv_init (db : DB) : KInv (Sys.init db) :=
-  ⟨CInv.init db, by intro x _; simp [circCount, heldAll, Sys.init]⟩
+  ⟨CInv.init db, by intro x _; simp [Book.circ, Book.heldAll, dnBook, Sys.init],
+   by intro x _; simp [Book.circ, Book.heldAll, upBook, Sys.init]⟩
 
 theorem kinv_step (E D : Spec.Rfc4493.BlockFn) (cfg : Config) (sys : Sys) (i : Nat) (fault : Bool) (h : KInv sys) :
-    KInv (step E D cfg sys i fault) := ⟨cinv_step E D cfg sys i fault h.c, k_step E D cfg sys i fault h.c h.k⟩
+    KInv (step E D cfg sys i fault) :=
+  ⟨cinv_step E D cfg sys i fault h.c,
+   k_step dnBook dnBook_ok E D cfg sys i fault (dn_stepUplink E sys · fault) (dn_stepJoin E cfg sys · fault)
+     (fun pc p c b => dn_stepEncoder E D sys pc p c b fault h.c) h.dn,
+   k_step upBook upBook_ok E D cfg sys i fault (fun s => up_stepUplink E sys s fault h.c) (up_stepJoin E cfg sys · fault)
+     (fun pc p c b => up_stepEncoder E D sys pc p c b fault) h.up⟩
+
+theorem k_drop_threads (B : Book) (ok : B.Ok) {s : Sys} (hk : K B s) (f : List (Bytes × FobEntry)) (sc : List Bytes) :
+    K B { s with fob := f, scheduled := sc, threads := [] } := by
+  refine k_mono B hk ?_ ?_ ?_ (by intro x; simp [Book.heldAll])
+  · exact (ok.out_thr { s with fob := f, scheduled := sc } []).trans (ok.out_fob s f sc)
+  · exact (ok.iss_thr { s with fob := f, scheduled := sc } []).trans (ok.iss_fob s f sc)
+  · exact (ok.res_thr { s with fob := f, scheduled := sc } []).trans (ok.res_fob s f sc)
 
 theorem kinv_settle (E D : Spec.Rfc4493.BlockFn) (cfg : Config) (fuel : Nat) (sys : Sys) (h : KInv sys) :
     KInv (settle E D cfg fuel sys) := by
@@ -389,30 +550,45 @@ theorem kinv_settle (E D : Spec.Rfc4493.BlockFn) (cfg : Config) (fuel : Nat) (sy
   | succ n ih =>
     unfold settle
     split
-    · exact ⟨⟨h.c.upB, h.c.dnB, h.c.upI, h.c.dnI⟩, k_mono h.k rfl rfl rfl (by intro x; simp [heldAll])⟩
+    · exact ⟨⟨h.c.upB, h.c.dnB, h.c.upI, h.c.dnI⟩, k_drop_threads dnBook dnBook_ok h.dn sys.fob sys.scheduled,
+             k_drop_threads upBook upBook_ok h.up sys.fob sys.scheduled⟩
     · exact ih _ (kinv_step E D cfg sys _ false h)
+
+theorem k_spawn (B : Book) (ok : B.Ok) {s : Sys} (hk : K B s) (t : Thread) (ht : B.held t = none) :
+    K B { s with threads := s.threads ++ [t] } := by
+  refine k_mono B hk (ok.out_thr s _) (ok.iss_thr s _) (ok.res_thr s _) ?_
+  intro x
+  simp [Book.heldAll, List.filterMap_append, ht]
 
 theorem kinv_apply (E D : Spec.Rfc4493.BlockFn) (cfg : Config) (sys : Sys) (ev : Event) (h : KInv sys) :
     KInv (apply E D cfg sys ev) := by
-  refine ⟨cinv_apply E D cfg sys ev h.c, ?_⟩
+  have hc := cinv_apply E D cfg sys ev h.c
   cases ev with
   | deliver raw gw an na =>
     simp only [apply]
     split
     · rename_i t ht
-      refine k_mono h.k rfl rfl rfl ?_
-      intro x
-      have : heldDn t = none := by
+      have hshape : (∃ s, t = .join s) ∨ (∃ s, t = .uplink s ∧ s.pc = 0) := by
         unfold spawn at ht
         split at ht
-        · split at ht <;> (cases ht; rfl)
+        · split at ht
+          · cases ht; exact Or.inl ⟨_, rfl⟩
+          · cases ht; exact Or.inr ⟨_, rfl, rfl⟩
         · cases ht
-      simp [heldAll, List.filterMap_append, this]
-    · exact h.k
-  | submit m => exact k_mono h.k rfl rfl rfl (fun _ => Nat.le_refl _)
-  | stepT i f => exact k_step E D cfg sys i f h.c h.k
-  | quiesce => exact (kinv_settle E D cfg 200 sys h).k
-  | crash => exact k_mono h.k rfl rfl rfl (by intro x; simp [heldAll, apply])
+      refine ⟨⟨h.c.upB, h.c.dnB, h.c.upI, h.c.dnI⟩, k_spawn dnBook dnBook_ok h.dn t ?_, k_spawn upBook upBook_ok h.up t ?_⟩
+      · rcases hshape with ⟨s, rfl⟩ | ⟨s, rfl, hs⟩
+        · exact dnBook_ok.join0 s
+        · exact dnBook_ok.up0 s hs
+      · rcases hshape with ⟨s, rfl⟩ | ⟨s, rfl, hs⟩
+        · exact upBook_ok.join0 s
+        · exact upBook_ok.up0 s hs
+    · exact h
+  | submit m =>
+    exact ⟨hc, k_mono dnBook h.dn (dnBook_ok.out_db _ _) (dnBook_ok.iss_db _ _) (dnBook_ok.res_db _ _) (fun _ => Nat.le_refl _),
+           k_mono upBook h.up (upBook_ok.out_db _ _) (upBook_ok.iss_db _ _) (upBook_ok.res_db _ _) (fun _ => Nat.le_refl _)⟩
+  | stepT i f => exact kinv_step E D cfg sys i f h
+  | quiesce => exact kinv_settle E D cfg 200 sys h
+  | crash => exact ⟨hc, k_drop_threads dnBook dnBook_ok h.dn [] [], k_drop_threads upBook upBook_ok h.up [] []⟩
 
 theorem kinv_run (E D : Spec.Rfc4493.BlockFn) (cfg : Config) (sys : Sys) (evs : List Event) (h : KInv sys) :
     KInv (run E D cfg sys evs) := by
